@@ -47,6 +47,7 @@ def density_job(comm, shape, nprocs, vspace, a, h, coeffs, dtype, perturbed, out
     B = np.array([[float(vspace.basis(j, x)) for j in range(vspace.nb)] for x in xi])        # [v node, basis]
     lay = h4.getLayout("v_parallel")          # (r, z, theta, v)
     data = f.getAllData()
+    df0 = DensityFinder(6, vb, eta, c)       # an earlier finder on the SAME v spline object must not disturb a later one (nor vice versa)
     df = DensityFinder(6, vb, eta, c)
     feq = np.empty([shape[0], len(vg)])
     init.feq_vector(feq, eta[0], eta[3], c.CN0, c.kN0, c.deltaRN0, c.rp, c.CTi, c.kTi, c.deltaRTi)
@@ -57,10 +58,11 @@ def density_job(comm, shape, nprocs, vspace, a, h, coeffs, dtype, perturbed, out
                 cv = np.array(coeffs[gr][k][gz], dtype=float)
                 data[i, j, k, :] = B @ cv + (feq[gr, :] if perturbed else 0.0)
     rho.getAllData()[:] = -777.0
+    (df0 if (rk + len(coeffs)) % 2 else df).getRho(f, rho)          # warm-up call through one of the two finders
     if perturbed:
-        df.getPerturbedRho(f, rho)
+        (df if rk % 2 else df0).getPerturbedRho(f, rho)
     else:
-        df.getRho(f, rho)
+        (df if rk % 2 else df0).getRho(f, rho)
     rl = h3.getLayout("v_parallel_2d")        # (r, z, theta)
     r = rho.getAllData()
     for i, gr in enumerate(range(rl.starts[0], rl.ends[0])):
